@@ -35,9 +35,9 @@ def check_input(acc, cls, qn, data, tag):
     except core.Timeout:
         raise
     except Exception as e:  # noqa
-        acc.violation('compose_fails:%s:%s' % (c01.leak_site(e) or definer, type(e).__name__),
+        acc.violation('compose_fails:%s:%s' % (c01.leak_site(e) or definer, core.ename(e)),
                       'the object parsed from an accepted input cannot be composed: %s %s'
-                      % (type(e).__name__, str(e)[:80]), w)
+                      % (core.ename(e), str(e)[:80]), w)
         return True
     b2 = bytes(b2)
     pcls = type(o1) if isinstance(o1, ParsableBaseNoABC) and type(o1) is not cls and hasattr(type(o1), '_parse') else cls
@@ -54,9 +54,9 @@ def check_input(acc, cls, qn, data, tag):
             except Exception as e2:  # noqa
                 e = e2
         if o2 is None:
-            acc.violation('recomposed_rejected:%s:%s' % (definer, type(e).__name__),
+            acc.violation('recomposed_rejected:%s:%s' % (definer, core.ename(e)),
                           'compose() of an accepted %s is rejected by the parser: %s %s'
-                          % (cls.__name__, type(e).__name__, str(e)[:80]), dict(w, recomposed=b2))
+                          % (cls.__name__, core.ename(e), str(e)[:80]), dict(w, recomposed=b2))
             return True
     if n2 != len(b2):
         acc.violation('recomposed_not_all_consumed:%s' % definer, 're-parse consumed %d of %d recomposed bytes'
@@ -77,7 +77,7 @@ def check_input(acc, cls, qn, data, tag):
     try:
         b3 = bytes(o2.compose())
     except Exception as e:  # noqa
-        acc.violation('second_compose_fails:%s:%s' % (definer, type(e).__name__), 'second compose raises', w)
+        acc.violation('second_compose_fails:%s:%s' % (definer, core.ename(e)), 'second compose raises', w)
         return True
     if b3 != b2:
         acc.violation('not_idempotent:%s' % definer, 'canonicalisation does not terminate in one step: second '
